@@ -96,35 +96,43 @@ Definition ivalue_taken (f : ifield) (i : bytes) : N :=
     end
   else match if_ent f with Some _ => if_len f | None => consumed_of (ipfix_dtype (if_type f)) (if_len f) end.
 
-(* one pass of the try_fold in FieldParser::parse: every field once, in order *)
-Fixpoint parse_irecord (puf : bool) (fs : list ifield) (c : N) (i : bytes) : res (list ientry * N) :=
+(* one pass over the template in FieldParser::parse: every field once, in order; returns the
+   entries, the bytes taken, and the part of them taken by variable-length fields *)
+Definition is_varlen (f : ifield) : bool := if_len f =? 65535.
+
+Fixpoint parse_irecord (puf : bool) (fs : list ifield) (c : N) (i : bytes) : res (list ientry * (N * N)) :=
   match fs with
-  | [] => Ok ([], 0) i
+  | [] => Ok ([], (0, 0)) i
   | f :: fs' =>
       match parse_ivalue puf f i with
       | Err e => Err e
       | Ok v r =>
           match parse_irecord puf fs' (c + 1) r with
-          | Ok (l, taken) r' => Ok ((c, if_type f, v) :: l, ivalue_taken f i + taken) r'
+          | Ok (l, (taken, vtaken)) r' =>
+              let t := ivalue_taken f i in
+              Ok ((c, if_type f, v) :: l, (t + taken, (if is_varlen f then t else 0) + vtaken)) r'
           | Err e => Err e
           end
       end
   end.
 
-(* remaining.len() >= total_taken, walking only total_taken cells *)
+Definition varlen_count (fs : list ifield) : N := lenN (filter is_varlen fs).
+
+(* remaining.len() >= n, walking only n cells *)
 Definition has_at_least (n : N) (l : bytes) : bool :=
   match take (N.to_nat n) l with Some _ => true | None => false end.
 
-(* FieldParser::parse: decode one record, go on while the record just read took at least one
-   byte and at least as many bytes remain *)
+(* FieldParser::parse: decode one record; go on while it took at least one byte and the next
+   record can still fit: what the fixed-length fields took plus one length byte per
+   variable-length field *)
 Fixpoint parse_irecords (fuel : nat) (puf : bool) (fs : list ifield) (i : bytes) : res (list ientry) :=
   match fuel with
   | O => Err EFuel
   | S fuel' =>
       match parse_irecord puf fs 0 i with
       | Err e => Err e
-      | Ok (ents, taken) r =>
-          if (0 <? taken) && has_at_least taken r then
+      | Ok (ents, (taken, vtaken)) r =>
+          if (0 <? taken) && has_at_least (taken - vtaken + varlen_count fs) r then
             match parse_irecords fuel' puf fs r with
             | Ok more r' => Ok (ents ++ more) r'
             | Err e => Err e
